@@ -471,6 +471,14 @@ func gen(t *rapid.T) Case {
 		c.Hosts = append(c.Hosts, h)
 		c.Hosts[r].Upload = len(c.Hosts) - 1
 	}
+	if chance(t, "writeredir", 12) {
+		r := pickReg("writeredir.reg")
+		h := newHost("storage", "push.region.example.net")
+		h.Origin = r
+		c.Hosts = append(c.Hosts, h)
+		c.Hosts[r].WriteRedir = len(c.Hosts) // 1-based
+		c.Hosts[r].WriteRedirSt = rapid.SampledFrom([]int{307, 308, 307, 308, 302, 303}).Draw(t, "writeredir.status")
+	}
 	if chance(t, "link", 20) {
 		r := pickReg("link.reg")
 		h := newHost("link", "pages.example.net")
